@@ -386,7 +386,7 @@ def check_phills(spec, ctx):
     sigma = 0.5 * spec["hw"] * spec["width"]
     across = sum(1 for c in xs[:-1] if abs(c - xs[-1]) > 0.5 * P and P - abs(c - xs[-1]) < 3.0 * sigma)
     if out.ok:
-        out.nontrivial = bool(out.nontrivial) and across >= 1
+        out.nontrivial = across >= 1 and abs(fd[0]["E0"]) > 1e-9
     out.strata = list(out.strata or []) + ["phills"] + (["phills_across"] if across else [])
     return out
 
